@@ -27,13 +27,43 @@ func propC20(w *World, r *Report) {
 		return
 	}
 	e := newTermEnv(w)
-	paths, complete := enumPaths(e, print, 64)
+	// Print may delegate to a helper of the package that does the work: follow straight-line delegation that
+	// hands the message on unchanged
+	core, msgParam := print, print.Params[1]
+	for depth := 0; depth < 3; depth++ {
+		if len(core.Blocks) != 1 {
+			break
+		}
+		var next *ssa.Function
+		var nextParam *ssa.Parameter
+		for _, in := range core.Blocks[0].Instrs {
+			if c, ok := in.(*ssa.Call); ok {
+				callee := c.Call.StaticCallee()
+				if callee == nil || callee.Pkg != pkg || len(callee.Blocks) == 0 {
+					continue
+				}
+				for i, a := range c.Call.Args {
+					if a == ssa.Value(msgParam) {
+						next, nextParam = callee, callee.Params[i]
+					}
+				}
+			}
+		}
+		if next == nil {
+			break
+		}
+		core, msgParam = next, nextParam
+	}
+	if core != print {
+		r.Note("Print delegates to %s; the decision procedure is analysed there", core.Name())
+	}
+	paths, complete := enumPaths(e, core, 64)
 	if !complete {
-		r.Unknown("G1", "LogLimiter.Print", w.Pos(print.Pos()), "the function is not loop-free: paths cannot be enumerated")
+		r.Unknown("G1", "LogLimiter.Print", w.Pos(core.Pos()), "the function is not loop-free: paths cannot be enumerated")
 		return
 	}
 	r.Extra["paths_enumerated"] = len(paths)
-	msg := e.termOf(print.Params[1]).String()
+	msg := e.termOf(msgParam).String()
 	st := T.Underlying().(*types.Struct)
 	// roles of the fields by type: time.Time = last print time, string = last entry, time.Duration = interval, func = clock
 	var fTime, fEntry, fInterval, fClock string
@@ -119,14 +149,22 @@ func propC20(w *World, r *Report) {
 			r.Check(s == condA || s == condB, "G1", name+": only the two stated comparisons gate printing", pos, s)
 		}
 	}
-	r.Check(suppressed == 1 && len(paths) == 3, "G1", "exactly one suppressing path among three (A false; A true ∧ B false; A true ∧ B true)", w.Pos(print.Pos()), fmt.Sprintf("%d paths, %d suppressing", len(paths), suppressed))
+	r.Check(suppressed == 1 && len(paths) == 3, "G1", "exactly one suppressing path among three (A false; A true ∧ B false; A true ∧ B true)", w.Pos(core.Pos()), fmt.Sprintf("%d paths, %d suppressing", len(paths), suppressed))
 	// Printf = Print(Sprintf(format, v...))
 	pe := newTermEnv(w)
 	okPf := false
 	for _, b := range printf.Blocks {
 		for _, in := range b.Instrs {
-			if call, ok := in.(*ssa.Call); ok && call.Call.StaticCallee() == print {
-				t := pe.termOf(call.Call.Args[1]).String()
+			if call, ok := in.(*ssa.Call); ok && (call.Call.StaticCallee() == print || call.Call.StaticCallee() == core) {
+				idx := 1
+				if call.Call.StaticCallee() == core {
+					for i, p := range core.Params {
+						if p == msgParam {
+							idx = i
+						}
+					}
+				}
+				t := pe.termOf(call.Call.Args[idx]).String()
 				okPf = t == "fmt.Sprintf("+pe.termOf(printf.Params[1]).String()+", "+pe.termOf(printf.Params[2]).String()+")"
 				r.Check(okPf, "G2", "Printf prints Sprintf(format, args...) through Print", w.InstrPos(call), t)
 			}
